@@ -118,14 +118,15 @@ inline StepInfo Step(Tape& t, Pool& pool, std::ostream& d, const ProgOptions& op
         std::vector<Manifold> ms;
         double est = 0;
         std::vector<int> idx;
-        for (int i = 0; i < k; ++i) { int j = PickIdx(t, pool); idx.push_back(j); ms.push_back(pool.v[j].m); est += pool.v[j].est; }
+        int bprops = 0; bool bnormals = false;
+        for (int i = 0; i < k; ++i) { int j = PickIdx(t, pool); idx.push_back(j); ms.push_back(pool.v[j].m); est += pool.v[j].est; bprops = std::max(bprops, pool.v[j].props); bnormals = bnormals || pool.v[j].normals; }
         if (est > opt.maxTris) break;
         OpType o = OpType(t.range(0, 2));
         hdr("Batch"); d << int(o) << "(";
         for (int j : idx) d << "v" << j << " ";
         d << ")";
         si.inputs = idx; si.topologyChanging = true;
-        out(Manifold::BatchBoolean(ms, o), est * 1.5 + 16);
+        out(Manifold::BatchBoolean(ms, o), est * 1.5 + 16, false, bprops, bnormals);
         return si;
       }
       case 7: {
@@ -133,8 +134,8 @@ inline StepInfo Step(Tape& t, Pool& pool, std::ostream& d, const ProgOptions& op
         hdr("Split"); d << "(v" << ia << ",v" << ib << ")";
         si.inputs = {ia, ib}; si.topologyChanging = true;
         auto pr = a.m.Split(b.m);
-        out(pr.first, (a.est + b.est) * 1.5 + 16);
-        out(pr.second, (a.est + b.est) * 1.5 + 16);
+        out(pr.first, (a.est + b.est) * 1.5 + 16, false, std::max(a.props, b.props), a.normals || b.normals);
+        out(pr.second, (a.est + b.est) * 1.5 + 16, false, std::max(a.props, b.props), a.normals || b.normals);
         return si;
       }
       case 8: {
@@ -146,8 +147,8 @@ inline StepInfo Step(Tape& t, Pool& pool, std::ostream& d, const ProgOptions& op
         bool trim = t.flip();
         hdr(trim ? "TrimByPlane" : "SplitByPlane"); d << "(v" << ia << ",(" << num(nrm.x) << "," << num(nrm.y) << "," << num(nrm.z) << ")," << num(off) << ")";
         si.inputs = {ia}; si.topologyChanging = true;
-        if (trim) out(a.m.TrimByPlane(nrm, off), a.est * 1.5 + 16, false, a.props);
-        else { auto pr = a.m.SplitByPlane(nrm, off); out(pr.first, a.est * 1.5 + 16, false, a.props); out(pr.second, a.est * 1.5 + 16, false, a.props); }
+        if (trim) out(a.m.TrimByPlane(nrm, off), a.est * 1.5 + 16, false, a.props, a.normals);
+        else { auto pr = a.m.SplitByPlane(nrm, off); out(pr.first, a.est * 1.5 + 16, false, a.props, a.normals); out(pr.second, a.est * 1.5 + 16, false, a.props, a.normals); }
         return si;
       }
       case 9: case 10: {
@@ -299,7 +300,7 @@ inline StepInfo Step(Tape& t, Pool& pool, std::ostream& d, const ProgOptions& op
         si.inputs = {ia, ib};
 #pragma GCC diagnostic push
 #pragma GCC diagnostic ignored "-Wdeprecated-declarations"
-        out(Manifold::Compose({a.m, b.m}), a.est + b.est);
+        out(Manifold::Compose({a.m, b.m}), a.est + b.est, false, std::max(a.props, b.props), a.normals || b.normals);
 #pragma GCC diagnostic pop
         return si;
       }
@@ -356,7 +357,7 @@ inline StepInfo Step(Tape& t, Pool& pool, std::ostream& d, const ProgOptions& op
         Manifold other = k == 0 ? a.m : k == 1 ? a.m.Translate(vec3(t.range(-1, 1), 0, 0)) : a.m.Rotate(0, 0, 90.0 * t.range(1, 3));
         hdr("SelfBoolean"); d << int(o) << "(v" << ia << ",variant" << k << ")";
         si.inputs = {ia}; si.topologyChanging = true;
-        out(a.m.Boolean(other, o), a.est * 3 + 16);
+        out(a.m.Boolean(other, o), a.est * 3 + 16, false, a.props, a.normals);
         return si;
       }
       case 30: {
